@@ -688,6 +688,8 @@ func c13Range(r *R) {
 			r.Nontrivial("R" + fmt.Sprint(args))
 		}
 	}
+	c13RangeFloats[float64](r, "float64")
+	c13RangeFloats[float32](r, "float32")
 	// float steps
 	for _, st := range []float64{0.25, 0.5} {
 		for _, end := range []float64{1, 2, 2.25} {
@@ -704,6 +706,82 @@ func c13Range(r *R) {
 	}
 }
 
+
+// c13RangeFloats: every argument list of 1..3 multiples of 1/4 in [-2.5, 2.5] (exact in binary floating
+// point, so is every partial sum), for float64 and float32: fractional starts, spans and steps, unit steps
+// over a fractional span (round 7: C13-13, an element count computed by truncating end-start).
+func c13RangeFloats[T float32 | float64](r *R, tn string) {
+	var vals []T
+	for q := -10; q <= 10; q++ {
+		vals = append(vals, T(q)/4)
+	}
+	ref := func(args []T) (res []T, invalid bool) {
+		var start, step, end T
+		switch len(args) {
+		case 1:
+			step, end = 1, args[0]
+		case 2:
+			start, step, end = args[0], 1, args[1]
+		case 3:
+			start, step, end = args[0], args[1], args[2]
+			if step == 0 || (end > 0 && start > end) || (step < 0 && end > start) {
+				return nil, true
+			}
+		}
+		if step < 0 {
+			step = -step
+		}
+		if end > 0 {
+			for i := start; i < end; i += step {
+				res = append(res, i)
+			}
+		} else {
+			for i := start; i > end; i -= step {
+				res = append(res, i)
+			}
+		}
+		return res, false
+	}
+	check := func(args []T) {
+		want, invalid := ref(args)
+		var got, gotR []T
+		var err, errR error
+		p, msg := enum.Try(func() {
+			got, err = gogu.Range(args...)
+			gotR, errR = gogu.RangeRight(args...)
+		})
+		r.Eval("Range[" + tn + "]")
+		wit := fmt.Sprintf("Range[%s](%v)", tn, args)
+		switch {
+		case p:
+			r.Bad("Range/panic/fractional-arguments", wit, "panicked: %s", msg)
+		case invalid:
+			if err == nil || errR == nil {
+				r.Bad("Range/invalid-arguments-accepted/fractional-arguments", wit, "returned (%v,%v) / RangeRight (%v,%v), want an error", got, err, gotR, errR)
+			}
+		default:
+			if err != nil || !eqSlice(got, want) {
+				r.Bad("Range/wrong-progression/fractional-arguments", wit, "got (%v,%v), want %v", got, err, want)
+			}
+			rw := append([]T{}, want...)
+			for i, j := 0, len(rw)-1; i < j; i, j = i+1, j-1 {
+				rw[i], rw[j] = rw[j], rw[i]
+			}
+			if errR != nil || !eqSlice(gotR, rw) {
+				r.Bad("RangeRight/not-reverse-of-Range/fractional-arguments", wit, "RangeRight = (%v,%v), want %v", gotR, errR, rw)
+			}
+		}
+	}
+	for _, a := range vals {
+		check([]T{a})
+		for _, b := range vals {
+			check([]T{a, b})
+			for _, c := range vals {
+				check([]T{a, b, c})
+			}
+		}
+	}
+}
 
 // c13Identity: equality of elements is Go's ==, also where == means identity: two distinct pointers to
 // equal values are different elements (so are interface values holding them, and structs with a pointer
